@@ -1865,14 +1865,16 @@ Convex_hull/Monotone_chain>`_
         # remove points that are too close to each other:
         idx = list(range(np.size(ptx)))
         for k in range(np.size(ptx) - 2, 0, -1):
-            if np.abs(ptx[k] - ptx[k + 1]) <= min_separation and \
-               np.abs(pty[k] - pty[k + 1]) <= min_separation:
+            # compare with the next vertex that is still in the hull:
+            kn = idx[k + 1]
+            if np.abs(ptx[k] - ptx[kn]) <= min_separation and \
+               np.abs(pty[k] - pty[kn]) <= min_separation:
                 idx.pop(k)
 
-        # the starting vertex must be kept: drop its successor instead
-        if len(idx) > 3 and \
-           np.abs(ptx[idx[0]] - ptx[idx[1]]) <= min_separation and \
-           np.abs(pty[idx[0]] - pty[idx[1]]) <= min_separation:
+        # the starting vertex must be kept: drop its successor(s) instead
+        while len(idx) > 3 and \
+                np.abs(ptx[idx[0]] - ptx[idx[1]]) <= min_separation and \
+                np.abs(pty[idx[0]] - pty[idx[1]]) <= min_separation:
             idx.pop(1)
 
         ptx = ptx[idx]
